@@ -31,6 +31,10 @@ var c10Texts = map[string][]string{
 	},
 	"b.lua": {
 		"print(gfoo)\nlocal r = gfn(1, 2)\nprint(r)\n",
+		// a table whose members come from a metatable __index: resolving it makes the analysis merge
+		// one table's members into the other's (a write performed by a query)
+		"local base = { bx = 1, by = 2 }\nfunction base.bf(a) return a end\nlocal derived = { dz = 3 }\nlocal obj = setmetatable(derived, { __index = base })\nprint(obj.bx, obj.dz, derived.by)\nobj.bf(1)\n",
+		"local base = { bx = 1, by = 2 }\nfunction base.bf(a) return a end\nlocal derived = { dz = 3 }\nlocal obj = setmetatable(derived, { __index = base })\nprint(obj.bx, obj.dz, derived.by)\nobj.bf(1)\n",
 		"local q = gfoo\nprint(q, gfn(1, 2))\n",
 		"print(gbar)\n",
 	},
@@ -64,9 +68,22 @@ func genC10(seed int64, tier string) *Scenario {
 		cur[n] = t
 		sc.Files = append(sc.Files, File{Path: n, Data: Bytes(t)})
 	}
+	// "meta" profile: b.lua is the metatable text and most readers of the burst look at the derived
+	// table (queries that make the analysis write shared state); bursts may then consist of readers
+	// only — requests overlapping each other are as legitimate as requests overlapping an edit
+	meta := r.Intn(3) == 0
+	if meta {
+		cur["b.lua"] = c10Texts["b.lua"][1]
+		for i := range sc.Files {
+			if sc.Files[i].Path == "b.lua" {
+				sc.Files[i].Data = Bytes(cur["b.lua"])
+			}
+		}
+		sc.Knobs["meta"] = true
+	}
 	open := map[string]bool{}
 	for _, n := range names {
-		if n == "a.lua" || r.Intn(3) > 0 {
+		if n == "a.lua" || (meta && n == "b.lua") || r.Intn(3) > 0 {
 			sc.Ops = append(sc.Ops, Op{Kind: "open", Path: n})
 			open[n] = true
 		}
@@ -97,9 +114,22 @@ func genC10(seed int64, tier string) *Scenario {
 		if len(pos) > 0 && r.Intn(5) > 0 {
 			p = pos[r.Intn(len(pos))]
 		}
-		wantWriter := (i == k-1 && writers == 0) || r.Intn(5) < 2
+		wantWriter := (i == k-1 && writers == 0 && !meta) || r.Intn(5) < 2
 		if !wantWriter {
 			m := []string{"hover", "definition", "references", "rename", "documentSymbol", "workspaceSymbol", "completion", "highlight", "varColor", "hover", "references", "completion", "signatureHelp", "documentColor"}[r.Intn(14)]
+			if meta && r.Intn(3) > 0 {
+				n = "b.lua"
+				m = []string{"hover", "definition", "completion"}[r.Intn(3)]
+				var dpos []Pos
+				for _, q := range identPositions(cur[n]) {
+					if q.Line >= 3 {
+						dpos = append(dpos, q)
+					}
+				}
+				if len(dpos) > 0 {
+					p = dpos[r.Intn(len(dpos))]
+				}
+			}
 			if lastReader != "" && r.Intn(4) == 0 {
 				m = lastReader // two requests of the same kind in flight (fast typing)
 			}
